@@ -188,3 +188,184 @@ def transform_tree_control(root):
                 open(p, "w", encoding="utf-8").write(ast.unparse(tree) + "\n")
                 n += 1
     return n
+
+
+class _Temps(ast.NodeTransformer):
+    """Fifth twin: `return <expr>` becomes `ret_value = <expr>; return ret_value` (non-trivial expressions only),
+    `x = a if c else b` becomes an if / else statement, and every function without a docstring gets one."""
+
+    def _fn(self, node):
+        self.generic_visit(node)
+        body = list(node.body)
+        if not (body and isinstance(body[0], ast.Expr) and isinstance(body[0].value, ast.Constant)
+                and isinstance(body[0].value.value, str)):
+            body.insert(0, ast.Expr(value=ast.Constant(value=f"{node.name}: documented by the twin generator.")))
+        node.body = body
+        return node
+
+    visit_FunctionDef = _fn
+    visit_AsyncFunctionDef = _fn
+
+    def visit_Lambda(self, node):
+        return node                       # nothing inside a lambda can become a statement
+
+    def _block(self, stmts):
+        out = []
+        for st in stmts:
+            st = self.visit(st)
+            if isinstance(st, ast.Return) and st.value is not None and not isinstance(st.value, (ast.Name, ast.Constant)) \
+                    and not any(isinstance(n, (ast.Yield, ast.YieldFrom)) for n in ast.walk(st.value)):
+                out.append(ast.Assign(targets=[ast.Name(id="ret_value", ctx=ast.Store())], value=st.value))
+                out.append(ast.Return(value=ast.Name(id="ret_value", ctx=ast.Load())))
+            elif isinstance(st, ast.Assign) and len(st.targets) == 1 and isinstance(st.targets[0], ast.Name) \
+                    and isinstance(st.value, ast.IfExp):
+                tgt = st.targets[0].id
+                out.append(ast.If(test=st.value.test,
+                                  body=[ast.Assign(targets=[ast.Name(id=tgt, ctx=ast.Store())], value=st.value.body)],
+                                  orelse=[ast.Assign(targets=[ast.Name(id=tgt, ctx=ast.Store())], value=st.value.orelse)]))
+            else:
+                out.append(st)
+        return out
+
+    def generic_visit(self, node):
+        for field in ("body", "orelse", "finalbody"):
+            val = getattr(node, field, None)
+            if isinstance(val, list) and val and isinstance(val[0], ast.stmt):
+                setattr(node, field, self._block(val))
+        if isinstance(node, ast.Try):
+            for hnd in node.handlers:
+                hnd.body = self._block(hnd.body)
+        if isinstance(node, ast.ClassDef) or isinstance(node, ast.Module):
+            return node
+        # expressions below statements are left alone
+        return node
+
+
+def transform_tree_temps(root):
+    """Fifth whole-package twin (see _Temps) plus an unused import and an unused private helper in every module."""
+    n = 0
+    for dp, dn, fn in os.walk(os.path.join(root, "torchsde")):
+        for f in fn:
+            if f.endswith(".py"):
+                p = os.path.join(dp, f)
+                tree = ast.parse(open(p, encoding="utf-8").read())
+                tree = _Temps().visit(tree)
+                k = 0
+                while k < len(tree.body) and ((isinstance(tree.body[k], ast.Expr) and isinstance(tree.body[k].value, ast.Constant))
+                                              or (isinstance(tree.body[k], ast.ImportFrom) and tree.body[k].module == "__future__")):
+                    k += 1
+                tree.body.insert(k, ast.parse("import itertools as _twin_itertools").body[0])
+                tree.body.append(ast.parse("def _twin_unused_helper(values):\n    total = 0\n    for v in values:\n        total = total + v\n    return total").body[0])
+                ast.fix_missing_locations(tree)
+                open(p, "w", encoding="utf-8").write(ast.unparse(tree) + "\n")
+                n += 1
+    return n
+
+
+def _pure(e):
+    if isinstance(e, (ast.Name, ast.Constant)):
+        return True
+    if isinstance(e, ast.Attribute):
+        return _pure(e.value)
+    if isinstance(e, ast.BinOp):
+        return _pure(e.left) and _pure(e.right)
+    if isinstance(e, ast.UnaryOp):
+        return _pure(e.operand)
+    if isinstance(e, ast.Subscript):
+        return _pure(e.value) and _pure(e.slice)
+    if isinstance(e, ast.Tuple):
+        return all(_pure(x) for x in e.elts)
+    if isinstance(e, ast.Slice):
+        return all(x is None or _pure(x) for x in (e.lower, e.upper, e.step))
+    return False
+
+
+class _Hoist(ast.NodeTransformer):
+    """Sixth twin: one sub-expression per simple statement is computed into a temporary first --
+    `y = a + b * c` becomes `twin_tmp_1 = b * c; y = a + twin_tmp_1`, `f(a, g(b))` becomes `twin_tmp_2 = g(b); f(a, twin_tmp_2)`
+    -- only where everything evaluated before the hoisted expression is free of calls, so the order of effects is kept."""
+
+    def __init__(self):
+        self.n = 0
+
+    def _hoistable(self, e):
+        return isinstance(e, (ast.BinOp, ast.Call)) and not any(
+            isinstance(n, (ast.Yield, ast.YieldFrom, ast.Await, ast.NamedExpr, ast.Lambda, ast.Starred)) for n in ast.walk(e))
+
+    def _split(self, value):
+        """(temp_assign, new_value) or None"""
+        if isinstance(value, ast.BinOp) and _pure(value.left) and self._hoistable(value.right):
+            self.n += 1
+            name = f"twin_tmp_{self.n}"
+            tmp = ast.Assign(targets=[ast.Name(id=name, ctx=ast.Store())], value=value.right)
+            return tmp, ast.BinOp(left=value.left, op=value.op, right=ast.Name(id=name, ctx=ast.Load()))
+        if isinstance(value, ast.BinOp) and self._hoistable(value.left) and isinstance(value.left, ast.BinOp):
+            r = self._split(value.left)
+            if r:
+                return r[0], ast.BinOp(left=r[1], op=value.op, right=value.right)
+        if isinstance(value, ast.Call) and _pure(value.func) and not any(isinstance(a, ast.Starred) for a in value.args):
+            for k, a in enumerate(value.args):
+                if self._hoistable(a):
+                    self.n += 1
+                    name = f"twin_tmp_{self.n}"
+                    tmp = ast.Assign(targets=[ast.Name(id=name, ctx=ast.Store())], value=a)
+                    args = list(value.args)
+                    args[k] = ast.Name(id=name, ctx=ast.Load())
+                    return tmp, ast.Call(func=value.func, args=args, keywords=value.keywords)
+                if not _pure(a):
+                    break
+        return None
+
+    def _block(self, stmts):
+        out = []
+        for st in stmts:
+            st = self.visit(st)
+            if isinstance(st, (ast.Assign, ast.Return)) and st.value is not None and \
+                    not any(isinstance(n, (ast.Yield, ast.YieldFrom)) for n in ast.walk(st.value)):
+                r = self._split(st.value)
+                if r:
+                    out.append(ast.copy_location(r[0], st))
+                    st.value = r[1]
+            out.append(st)
+        return out
+
+    def _fn(self, node):
+        for field in ("body",):
+            node.body = self._block(node.body)
+        return node
+
+    visit_FunctionDef = _fn
+    visit_AsyncFunctionDef = _fn
+
+    def visit_Lambda(self, node):
+        return node
+
+    def visit_ClassDef(self, node):
+        node.body = [self.visit(s) if isinstance(s, (ast.FunctionDef, ast.AsyncFunctionDef, ast.ClassDef)) else s for s in node.body]
+        return node
+
+    def generic_visit(self, node):
+        if isinstance(node, ast.stmt):
+            for field in ("body", "orelse", "finalbody"):
+                val = getattr(node, field, None)
+                if isinstance(val, list) and val and isinstance(val[0], ast.stmt):
+                    setattr(node, field, self._block(val))
+            if isinstance(node, ast.Try):
+                for hnd in node.handlers:
+                    hnd.body = self._block(hnd.body)
+        return node
+
+
+def transform_tree_hoist(root):
+    n = 0
+    for dp, dn, fn in os.walk(os.path.join(root, "torchsde")):
+        for f in fn:
+            if f.endswith(".py"):
+                p = os.path.join(dp, f)
+                tree = ast.parse(open(p, encoding="utf-8").read())
+                tr = _Hoist()
+                tree.body = [tr.visit(s) if isinstance(s, (ast.FunctionDef, ast.AsyncFunctionDef, ast.ClassDef)) else s for s in tree.body]
+                ast.fix_missing_locations(tree)
+                open(p, "w", encoding="utf-8").write(ast.unparse(tree) + "\n")
+                n += 1
+    return n
